@@ -28,6 +28,11 @@ TABLE = {
     ("Option", "or_else"): ("None", False, None, ("same", "Some")),
     ("Option", "unwrap_or_else"): ("None", False, None, ("payload", "Some")),
     ("Option", "ok_or_else"): ("None", False, "Result::Err", ("as", "Some", "Result::Ok")),
+    # predicates on the payload: `o.is_some_and(f)` == match o { Some(x) => f(x), None => false }
+    ("Option", "is_some_and"): ("Some", True, None, ("const", "None", 0)),
+    ("Option", "is_none_or"): ("Some", True, None, ("const", "None", 1)),
+    ("Result", "is_ok_and"): ("Ok", True, None, ("const", "Err", 0)),
+    ("Result", "is_err_and"): ("Err", True, None, ("const", "Ok", 0)),
 }
 TRANSPOSE = "std::option::Option::<std::result::Result<T, E>>::transpose"
 # closure-less forms: (kind, name) -> [(variant, what dest becomes)]; "wrap:V" = V(payload), "unit:V" = V, "arg:V" = V(second argument)
@@ -455,6 +460,8 @@ def desugar_call(bodies, path, body, bb):
         rv = {"use": {"move": _payload(r, other_v)}}
     elif passthrough[0] == "unit":
         rv = _agg(other_v, [])
+    elif passthrough[0] == "const":
+        rv = {"use": {"const": {"ty": "bool", "v": passthrough[2]}}}
     else:
         rv = _agg(passthrough[2].split("::")[1], [{"move": _payload(r, other_v)}])
     pb = _new_block(body, [{"k": "assign", "place": copy.deepcopy(dest), "rv": rv, "span": span, "desugared": "pass"}], {"k": "goto", "target": target, "span": span})
